@@ -141,11 +141,19 @@ def regress_scenarios(full):
          D("c6", 1, "c_zero"), CL("c6", 1), D("c7", 1, "c_cat"), CL("c7", 1), D("c8", 1, "c_one"), CL("c8", 1),
          D("c1", 0, "c_bad_norun"), CL("c1", 0), RS("kill"), CL("c1", 0), CL("c3", 0), CL("c9", 0)])
     add([D("c1", 0, "c_slow"), BURST([CL("c1", 0), CL("c1", 0), CL("c1", 0)]), D("c1", 0, "c_two"), CL("c1", 0)])
+    # C17 / C16: a handler whose return frames are ephemeral fails: its `.unregistered` is an ordinary stored frame (the
+    # return TTL is for return frames), so the handler does not come back with the next start
+    add([R("h1", 0, "h_eph_fail"), T(0), T(0, "t.fail"), RS("kill"), T(0), T(0, "t.y"), RS("exit"), T(0)])
+    # C15: appends made inside the lazy stream the closure returns belong to the invocation that returned it
+    add([R("h1", 0, "h_lazy"), T(0), T(0, "t.y"), T(1), U("h1", 0), T(0)])
     # C06: the same script text defined / registered in two contexts (and under two names): what its `.cat` / `.head` see is
     # the context of the definition that answers, not of whichever definition was prepared first (seeded change C06-d)
     add([T(0), T(1, "t.y"), D("c7", 0, "c_cat"), D("c7", 1, "c_cat"), CL("c7", 1), CL("c7", 0), D("c8", 1, "c_cat"), CL("c8", 1),
          T(1), CL("c8", 1), RS("kill"), CL("c7", 1), CL("c7", 0)])
     add([T(0), T(1, "t.y"), R("h1", 0, "h_cat"), R("h1", 1, "h_cat"), T(1), T(0), R("h2", 1, "h_cat"), T(1, "t.y"), RS("kill"), T(1), T(0)])
+    # C19: overlapping calls of a command whose output stream appends while it is drained
+    add([D("c1", 0, "c_lazy"), CL("c1", 0), BURST([CL("c1", 0), CL("c1", 0), CL("c1", 0)]), D("c2", 1, "c_lazy"),
+         BURST([CL("c2", 1), CL("c1", 0), CL("c2", 1)])])
     # C19 known: table keyed by name across contexts
     add([D("c1", 0, "c_two"), CL("c1", 1), D("c1", 1, "c_three"), CL("c1", 0), D("c7", 1, "c_cat"), T(0), CL("c7", 0)], cfg="known-cmd-name")
     # C18
@@ -180,7 +188,7 @@ def regress_scenarios(full):
     return out
 
 
-H_KINDS_T = ["h_echo", "h_echo", "h_echo_head", "h_slow", "h_pulse", "h_a1", "h_a2", "h_a3ctx", "h_str", "h_int", "h_list", "h_bool", "h_none",
+H_KINDS_T = ["h_echo", "h_echo", "h_echo_head", "h_lazy", "h_slow", "h_pulse", "h_a1", "h_a2", "h_a3ctx", "h_str", "h_int", "h_list", "h_bool", "h_none",
              "h_silent", "h_suffix", "h_ttl", "h_suffix_a", "h_fail_before", "h_fail_mid", "h_fail_after", "h_cat", "h_cat_head"]
 H_KINDS_BAD = ["h_bad_parse", "h_bad_arity0", "h_bad_arity2", "h_bad_norun", "h_bad_resume", "h_bad_ttl"]
 TOPICS = ["t.x", "t.x", "t.y", "t.z", "t.fail", "t.slow"]
@@ -244,7 +252,7 @@ def random_handler_scenario(rng, s, long_ms):
     return mk(s, acts, mode=mode, cfg="random-h", extra_kinds=extra, long_ms=long_ms, seed=rng.randrange(1 << 30))
 
 
-C_KINDS = ["c_two", "c_two", "c_env", "c_zero", "c_one", "c_three", "c_app", "c_err", "c_suffix", "c_slow", "c_cat", "c_bad_parse", "c_bad_norun"]
+C_KINDS = ["c_two", "c_two", "c_lazy", "c_env", "c_zero", "c_one", "c_three", "c_app", "c_err", "c_suffix", "c_slow", "c_cat", "c_bad_parse", "c_bad_norun"]
 
 
 def random_command_scenario(rng, s, long_ms):
@@ -380,10 +388,27 @@ def collect(res, scs, files, outs, replay_dir):
         for sid, vs in list(by_s.items())[:40]:
             # a frame that is absent only counts after the runner's generous wait
             soft = [v for v in vs if v["w"].startswith("missing") and not v["timeout"]]
+            evs = None
             if soft:
-                raise ToolError(f"scenario {sid}: the observer misses a frame ({soft[0]['w']} at {soft[0]['x']}) but the runner saw "
-                                f"nothing owed - runner and observer disagree (tool problem, not a verdict on /repo)")
-            evs = scenario_events([files[fidx]], sid)
+                # The observer misses a frame although the runner saw nothing owed (the two work from different rules).
+                # Absence counts only after the long wait: the scenario runs once more, every wait held for the full
+                # long timeout whatever the runner believes is owed, and only that run is judged.
+                sc2 = dict(sc_by_s[sid], patient=True, no_shorten=True)
+                d2 = scratch(f"proc-patient-{sid}")
+                try:
+                    f2, o2, _, _, _ = run_scenarios([sc2], d2, 1, 1, tag="patient")
+                    vs = [v for (vv, _, _, _, _) in o2 for v in vv if v["b"] == sid]
+                    evs = scenario_events(f2, sid)
+                finally:
+                    shutil.rmtree(d2, ignore_errors=True)
+                log(f"scenario {sid}: observer missed a frame the runner did not wait for; patient re-run: "
+                    f"{'still ' + str(sorted({v['w'] for v in vs})) if vs else 'nothing missing'}")
+                if any(v["w"].startswith("missing") and not v["timeout"] for v in vs):
+                    raise ToolError(f"scenario {sid}: patient re-run still reports a missing frame without the long wait")
+                if not vs:
+                    continue
+            if evs is None:
+                evs = scenario_events([files[fidx]], sid)
             path = os.path.join(replay_dir, f"proc-s{sid}.json")
             json.dump({"group": "proc", "scenario": sc_by_s.get(sid), "violations": vs, "trace": evs}, open(path, "w"))
             for v in vs:
